@@ -30,6 +30,11 @@ THEOREMS = [
     "Gwcs.Units.with_units_in_frame_units_twin",
     "Gwcs.Units.objects_agree",
     "Gwcs.Units.pixel_quantity_converted",
+    "Gwcs.Units.sanitize_keeps_qtys",
+    "Gwcs.Units.mixed_rev_world_values",
+    "Gwcs.Units.arrayIndexScaleOnly_eq",
+    "Gwcs.Units.array_index_unit_independent",
+    "Gwcs.Units.array_index_matches_twin",
 ]
 RULE = ("case = (WCS family: 1-D spectral / 1-D temporal / 2-D sky / 3-D sky+spectral cube / TAN imaging, units of the transform, units of the "
         "frames, units of the world inputs, sky frame of object inputs, point or array); each case builds the unit-carrying WCS and its "
@@ -457,7 +462,7 @@ def _model_axes(case, twin):
 def request(case, res):
     if case["family"] == "frames3":
         return None
-    if case["family"] == "tan" or case["array"] or "err" in res["q"]["p2wv"] or case.get("pixu") or case.get("mixed_rev"):
+    if case["family"] == "tan" or case["array"] or "err" in res["q"]["p2wv"] or case.get("pixu"):
         return None
     pix = [Fraction(p[0]) for p in case["pix"]]
     reqs = []
@@ -470,6 +475,8 @@ def request(case, res):
         base = {"usesQ": not twin, "axes": axes}
         if case.get("mixed") and not twin:
             base["bwd_plain"] = [[a["a"], a["b"]] for a in _model_axes(case, True)]
+        if case.get("mixed_rev") and twin:
+            base["bwd_units"] = [[a["a"], a["b"]] for a in _model_axes(case, True)]
         reqs.append(dict(base, tag=nm + ":p2wv", op="p2wv", args=[C.q2w(p) for p in pix]))
         reqs.append(dict(base, tag=nm + ":w2pv", op="w2pv", args=[C.q2w(w) for w in wf]))
         reqs.append(dict(base, tag=nm + ":inv_alt", op="invert", args=walt))
@@ -478,8 +485,11 @@ def request(case, res):
         reqs.append(dict(base, tag=nm + ":pixq_first", op="p2w", args=[["q", C.q2w(pix[0]), bad]] + [C.q2w(p) for p in pix[1:]]))
         reqs.append(dict(base, tag=nm + ":pixq_last", op="p2w", args=[C.q2w(p) for p in pix[:-1]] + [["q", C.q2w(pix[-1]), bad]]))
         reqs.append(dict(base, tag=nm + ":pixq_right", op="p2w", args=[["q", C.q2w(p), _wu("pix")] for p in pix]))
-        if twin:
+        if twin and not case.get("mixed_rev"):
             reqs.append(dict(base, tag=nm + ":inv_bare", op="invert", args=[C.q2w(w) for w in wf]))
+        if case.get("noshift") and not twin and len(case["axes"]) == 1 and "w2ai_obj" in res[nm]:
+            # world_to_array_index through the scale-only backward transform, the world value in the 'alt' unit
+            reqs.append(dict(base, tag=nm + ":w2ai_obj", op="w2ai_scale", args=[walt[0]]))
     return {"multi": reqs}
 
 
@@ -505,6 +515,10 @@ def compare(case, res, resp):
             continue
         if "err" in r:
             return "%s on the %s WCS: implementation raises %s, model returns %s" % (op, nm, r["msg"], m["ok"])
+        if op == "w2ai_obj":
+            if [float(m["ok"])] != r["v"]:
+                return "world_to_array_index on the %s WCS: implementation %s, model %s" % (nm, r["v"], m["ok"])
+            continue
         mv = [_mv(x) for x in m["ok"]]
         if len(mv) != len(r["v"]) or not all(_close(a, b[0]) for a, b in zip(r["v"], mv)):
             return "%s on the %s WCS: implementation %s, model %s" % (op, nm, r["v"], [v for v, _ in mv])
@@ -512,7 +526,7 @@ def compare(case, res, resp):
             return "model values interface returned a quantity"
         if op == "inv_alt":
             # invert on the unit-carrying WCS returns pixel quantities, on the twin bare numbers
-            want_q = nm == "q" and not case.get("mixed")
+            want_q = (nm == "q" and not case.get("mixed")) or (nm == "t" and bool(case.get("mixed_rev")))
             if ("Quantity" in r["kinds"]) != want_q or any((uu is not None) != want_q for _, uu in mv):
                 return "invert on the %s WCS: implementation returns %s, model %s" % (nm, r["kinds"], ["qty" if uu else "bare" for _, uu in mv])
     return None
